@@ -10,6 +10,12 @@ TRUST = ("g++ 12 as arbiter of 'compiles'; clang 14 front end + LLVM 14 -O2 pipe
          "the fact extractors and rule tables in /verif/engine (exercised by selftest mutants); nothing is executed")
 
 CLAIMED = {
+    "C02": dict(
+        level="other", design="5/C02", technique="per-layer contracts over an opaque probe backend decided from loop-free LLVM IR as exact value identities (D-route), composition by induction",
+        text="Every layer is analysed once over an opaque backend, for N and M chosen independently: which coordinate component reaches which query argument, how many queries, which queried component "
+             "reaches which output through which cast. Exact for routing layers (shuffle, dereference, cast, constant, identity, both field_view::at forms, composites); the arithmetic layers' contracts "
+             "(C03, C04, C09, C10, C11, C14 rules) are evaluated as well. Composition follows by induction from parametricity; value-level arithmetic is decided in the per-layer properties.",
+        note="quick: 7 (N,M) pairs; thorough: all 16 pairs and all permutations for N<=3; induction step itself is an argument, spot-checked on two composite stacks"),
     "C03": dict(
         level="other", design="5/C03", technique="abstract interpretation of loop-free LLVM IR: query count/routing/dependence facts + polynomial normal form of the interpolation expression",
         text="Decides the structure of the interpolant for every (N, M, coordinate type, stored type) instantiation including N != M: 2^N queries at int(c)+{0,1}^N, output dependence, "
